@@ -122,7 +122,10 @@ def classify_loops(job, gb):
                 if cls:
                     break
             key = '%s@%s' % (cls, fn)
-            if key in job.bounds:
+            if cls is None and ('fn:' + fn) in job.bounds:
+                cls = 'fn:' + fn
+                b = job.bounds[cls]
+            elif key in job.bounds:
                 b = job.bounds[key]
             elif cls in job.bounds:
                 b = job.bounds[cls]
@@ -139,8 +142,12 @@ def classify_loops(job, gb):
     return us, info
 
 
-def run_job(job):
+def run_job(job, deadline=None):
     t0 = time.time()
+    if deadline is not None and t0 > deadline:
+        job.status = 'skipped'
+        job.reason = 'time budget of this tier exhausted before the job started'
+        return job
     os.makedirs(job.workdir, exist_ok=True)
     gb = os.path.join(job.workdir, job.name + '.gb')
     cc = ['goto-cc', '-o', gb] + ['-D' + d for d in job.defines] + ['-I' + i for i in job.includes] + job.sources
@@ -240,7 +247,7 @@ def _parse_output(job, text, rc, err):
     if results is None:
         job.status = 'error'
         job.reason = 'no result section (rc %s): %s' % (rc, '; '.join(job.stats.get('errors', []))[-600:] or err[-600:])
-        if 'bad_alloc' in err or 'bad_alloc' in text:
+        if 'bad_alloc' in err or 'bad_alloc' in text or 'out of memory' in text.lower() or 'out of memory' in err.lower():
             job.status = 'inconclusive'
             job.reason = 'memory cap'
         return
@@ -260,10 +267,10 @@ def _parse_output(job, text, rc, err):
         job.status = 'proved'
 
 
-def run_jobs(jobs, workers=None, progress=None):
+def run_jobs(jobs, workers=None, progress=None, deadline=None):
     workers = workers or NCPU
     with ThreadPoolExecutor(max_workers=workers) as ex:
-        futs = [ex.submit(run_job, j) for j in jobs]
+        futs = [ex.submit(run_job, j, deadline) for j in jobs]
         for f in futs:
             j = f.result()
             if progress:
